@@ -209,6 +209,49 @@ def bind_obligations(ctx, rep, rule):
     rep.add(rule, f"server classes: bind only in server_bind(), failures propagate [{n} bind sites]", not problems,
             ctx.where(problems[0][0], problems[0][1]) if problems else "pygopherd/server.py", "; ".join(p[2] for p in problems[:2]), key=f"{rule}|bind")
 
+
+_SWITCHES = ("usechroot", "detach", "enable_tls")
+
+
+def strict_switch_obligations(ctx, rep, rule):
+    """The on/off switches that decide whether a privilege step happens are read with ConfigParser.getboolean(): it accepts the
+    documented spellings in any case and *aborts* on anything else.  A home-made test (`== "yes"`, a look-up in BOOLEAN_STATES with a
+    default) reads `Yes` or a typo as off - the chroot is silently skipped and start-up goes on."""
+    prog = ctx.prog
+    mod = prog.modules.get("pygopherd.initialization")
+    if mod is None:
+        rep.fail(rule, "pygopherd.initialization", detail="start-up module not found")
+        return
+    from ..structure import parents
+
+    pm = parents(mod.tree)
+    n, problems = 0, []
+    for node in ast.walk(mod.tree):
+        if not (isinstance(node, ast.Constant) and node.value in _SWITCHES):
+            continue
+        par = pm.get(node)
+        if isinstance(par, ast.Call) and isinstance(par.func, ast.Attribute) and node in par.args:
+            n += 1
+            if par.func.attr == "getboolean":
+                continue
+            if par.func.attr in ("has_option", "remove_option", "set"):
+                n -= 1
+                continue
+            problems.append((node, f"`{norm(par)[:60]}` reads the switch {node.value!r} without ConfigParser.getboolean()"))
+        elif isinstance(par, ast.Call) and node in par.args:
+            n += 1
+            g = None
+            t = ctx.resolver.resolve(par, None) if False else None
+            name = dotted(par.func) or ""
+            g = mod.functions.get(name.split(".")[-1])
+            strict = g is not None and any(isinstance(x, ast.Call) and isinstance(x.func, ast.Attribute) and x.func.attr == "getboolean" for x in ast.walk(g.node))
+            if not strict:
+                problems.append((node, f"`{norm(par)[:60]}` reads the switch {node.value!r} through a helper that does not use ConfigParser.getboolean()"))
+    rep.add(rule, f"privilege switches are parsed by getboolean() [{n} reads of {', '.join(_SWITCHES)}]", not problems and n >= 1,
+            ctx.where(mod, problems[0][0]) if problems else mod.relpath,
+            "; ".join(p[1] for p in problems[:2]) + (": a spelling getboolean() accepts (`Yes`, `ON`) or a typo is then read as 'off' and the step is skipped "
+                                                     "without a word" if problems else ""), key=f"{rule}|switches")
+
 from .c20 import with_swallows
 
 
@@ -220,6 +263,9 @@ def check(ctx, rep):
     rep.rule("R19b", "all feasible paths of the privilege dropper: chroot < root:='/' & chdir into root < "
              "setgroups(()) < set*gid < set*uid; complete drops only; configured option => drop performed", floor=4)
     rep.rule("R19c", "no privileged call, bind or key load inside a try/suppress whose handler can complete normally", floor=3)
+    rep.rule("R19f", "the switches that decide a privilege step (usechroot, detach, enable_tls) are read with ConfigParser.getboolean(), which "
+             "accepts every documented spelling and aborts on anything else", floor=1)
+    strict_switch_obligations(ctx, rep, "R19f")
     rep.rule("R19e", "a failed bind aborts start-up and there is no later bind: server_bind() of the server classes lets errors propagate, "
              "nothing else binds the listening socket", floor=1)
     bind_obligations(ctx, rep, "R19e")
